@@ -110,7 +110,7 @@ ObserveItems(e) ==
                                        \* is the object itself shown under another (alias) path?
                                        aliased |-> \E k \in 1..(Len(pc) - 1) : InDegree(Resolve(SubSeq(pc, 1, k))) >= 2,
                                        elsewhere |-> \E i \in idx : rid(i) = Resolve(pc)])
-       \o SetToSeq(extra, LAMBDA i : [diag |-> "extra-path", p |-> T[i].p])
+       \o SetToSeq(extra, LAMBDA i : [diag |-> "extra-path", p |-> T[i].p, k |-> T[i].k])
        \o SetToSeq(wrongk, LAMBDA i : [diag |-> "wrong-kind", p |-> T[i].p, got |-> T[i].k, exp |-> objs[rid(i)].k])
        \o SetToSeq(ident, LAMBDA i : [diag |-> "hardlink-identity", p |-> T[i].p])
        \o Cat(dsets, LAMBDA i : IF T[i].p \in DOMAIN e.ds THEN DsItems(T[i].p, e.ds[T[i].p], objs[rid(i)])
@@ -224,6 +224,7 @@ Step(e) ==
          THEN /\ stats' = [stats EXCEPT !.observes = @ + 1, !.datasets = @ + Cardinality(DOMAIN e.ds)]
               /\ Keep
          ELSE RejectItems(e, items) /\ UNCHANGED stats
+    [] e.op = "layout" -> Keep /\ UNCHANGED stats        \* byte layout of the file: judged by C05Trace
     [] OTHER -> Reject(e, "unknown-event", e.op) /\ UNCHANGED stats
 
 \* the model's own consistency (checked on every state of every trace)
